@@ -48,6 +48,18 @@ Theorem C03_roundtrip : forall c, In c (t_ctors T) -> is_dict c = false ->
 Proof. exact roundtrip_thm. Qed.
 Print Assumptions C03_roundtrip.
 
+(* ObjectValues (the generic constructor whose marshal method is on *T): for EVERY slice -- any
+   identity (aliasing windows into a larger array included), any length, any elements -- the array
+   encoder is handed, in order, the ADDRESS OF THE CALLER'S OWN ELEMENT i ([VRef a i x]: element i of
+   the slice with identity a), never the address of a copy ([VPtr y], any y): what an encoder that
+   keeps the marshaler sees later, and what a marshal method that updates its receiver updates, is
+   the caller's element.  (C03_roundtrip states the same through [expected]; this is the direct form.) *)
+Theorem C03_object_values_identity : forall stack k a l,
+  exists f, construct T ctor_fuel stack ($"ObjectValues") k (VSlice a l) = Some f /\
+            addto T (addto_fuel (VSlice a l)) f = Some [(($"AddArray"), k, VCalls (refs_from ($"AppendObject") a 0 l))].
+Proof. exact object_values_thm. Qed.
+Print Assumptions C03_object_values_identity.
+
 (* Dict / dictField: an object holding, in order, what each member adds; panics iff a member does *)
 Theorem C03_dict : forall nm, nm = $"Dict" \/ nm = $"dictField" -> forall stack k a l,
   construct T ctor_fuel stack nm k (VSlice a l) = Some (dict_field k (VSlice a l)) /\
@@ -143,6 +155,12 @@ Example C03_example_float_nan_payload :
 Proof. vm_compute. reflexivity. Qed.
 Example C03_example_nil_pointer :
   option_map snd (deliver [] ($"Int8p") [x6b] VNil) = Some [(($"AddReflected"), [x6b], VNil)].
+Proof. vm_compute. reflexivity. Qed.
+(* two elements with the same content are still delivered as two different addresses *)
+Example C03_example_object_values_addresses :
+  let o := VOpq {| oty := 5; oaddr := 0; ocontent := 2; ocmp := true; oself := true; ostr := []; oerr := [] |} in
+  option_map snd (deliver [] ($"ObjectValues") [x6b] (VSlice 7 [o; o])) =
+    Some [(($"AddArray"), [x6b], VCalls [(($"AppendObject"), [], VRef 7 0 o); (($"AppendObject"), [], VRef 7 1 o)])].
 Proof. vm_compute. reflexivity. Qed.
 Example C03_example_time_boundaries :
   option_map (fun r => f_ty (fst r)) (deliver [] ($"Time") [] (VTime {| tinst := max_nano; tloc := 3 |})) = Some 16 /\
